@@ -10,7 +10,7 @@ from vt import verify as V
 from vt import smt
 from contracts import kmeans as KM
 from contracts import gmm as G
-from props.common import new_interp, collapse, guard
+from props.common import new_interp, collapse, guard, bounded
 from props.loopvc import RowChunks
 
 FUNCTIONS = ["kmeans.get_centroids_distance", "kmeans.get_closest_centroid_index", "kmeans.KMeansMachine.transform",
@@ -176,10 +176,14 @@ def gmm_init(ctx):
     return collapse(cl, "C20.gmm.init", "means := centroids_, (variances, weights) := k-means' cluster values through the setters; k-means machine unchanged")
 
 
+BOUNDED = [bounded("kmeans_repro.py", "offsets", "C20.native.offsets",
+                   "distances / labels on NumPy, Dask (several chunkings) and single samples agree with an exact integer reference for data with common "
+                   "offsets 0, 1e4, 1e8 (float cancellation is outside the real-arithmetic proof)")]
 GROUPS = [guard(dist), guard(predict), guard(varweights), guard(lemmas), guard(entry), guard(gmm_init)]
 SHARED = []
-REPLAY = [("C20", "kmeans_repro.py", "varweights", {}), ("C20.dist", "kmeans_repro.py", "dist", {}), ("C20.predict", "kmeans_repro.py", "dist", {}),
+REPLAY = [("C20.native", "kmeans_repro.py", "offsets", {}), ("C20", "kmeans_repro.py", "varweights", {}), ("C20.dist", "kmeans_repro.py", "dist", {}), ("C20.predict", "kmeans_repro.py", "dist", {}),
           ("C20.transform", "kmeans_repro.py", "dist", {})]
 TRUSTED = ["scipy cdist(A, B, 'sqeuclidean')[i,j] == Σ_d (A[i,d]-B[j,d])^2", "np.argmin returns an index attaining the minimum (lowest on ties)",
            "np.bincount(idx, minlength=K)[k] == #{s : idx[s] == k} for indices < K", "Dask contract (DESIGN §3)"]
 ASSUMPTIONS = ["no empty cluster (division by a zero count is C13's recorded finding)", "cancellation at large offsets is a float-only effect, not decided"]
+XCHECK = ['kmeans']
